@@ -47,11 +47,13 @@ deriving DecidableEq, Repr
 structure Page (α : Type) where
   items : List α
   next : Next
+deriving DecidableEq, Repr
 
 /-- what one HTTP GET gives the client -/
 inductive Resp (α : Type)
   | page (p : Page α)
   | fail (e : Err)          -- `r.json()` raised, or the payload has no `_items`, or transport error
+deriving DecidableEq, Repr
 
 /-- what an observer of the generator sees: the URLs requested, the items yielded, and how it
     ended (`none` = exhausted normally) -/
@@ -59,7 +61,7 @@ structure Trace (β : Type) where
   urls : List String
   items : List β
   stop : Option Err
-deriving Repr
+deriving DecidableEq, Repr
 
 /-- `for s in payload["_items"]: parse_dates(s); yield s` — stops at the first failing conversion -/
 def yieldAll {α β : Type} (conv : α → Except Err β) : List α → List β × Option Err
@@ -106,13 +108,13 @@ structure Query where
   sort : Option String
   timeseries : Bool
 
-def optParam (k : Key) : Option String → List (Key × String)
+def optArg (k : Key) : Option String → List (Key × String)
   | none => []
   | some v => [(k, v)]
 
 /-- `args` of `get_sessions` (data_client.py:48-55), in order -/
 def params (q : Query) : List (Key × String) :=
-  optParam .where_ q.cond ++ optParam .project q.project ++ optParam .sort q.sort ++
+  optArg .where_ q.cond ++ optArg .project q.project ++ optArg .sort q.sort ++
     [(.maxResults, if q.timeseries then "1" else "100")]
 
 /-- `"?" + "&".join(args) if len(args) > 0 else ""` -/
@@ -135,7 +137,7 @@ def getSessions {α β : Type} (base site : String) (q : Query) (fetch : String 
 
 /-- `args` of `count_sessions` (data_client.py:90-93) -/
 def countParams (cond : Option String) : List (Key × String) :=
-  optParam .where_ cond ++ [(.limit, "1")]
+  optArg .where_ cond ++ [(.limit, "1")]
 
 def countUrl (base site : String) (cond : Option String) : String :=
   base ++ "sessions/" ++ site ++ render (countParams cond)
